@@ -63,6 +63,18 @@ CLAIMED = {
         note="Trusted: TLC, TraitSet.tla (cross-checked per case against builtin set), item concretisation. Known "
              "finding F15 (symmetric difference with coerced items) is a named deviation action; F2 fixed in /repo.",
         design="4/C07"),
+    "C13": dict(
+        technique=TLA + "Names.tla defines Governing (instance trait > class trait > longest wildcard > class default) "
+                  "and the access policies; TLC checks the policy invariants on all histories to the bound; every history "
+                  "of the state graph is replayed on a freshly generated class hierarchy and folded through the "
+                  "specification by TLC (Trace_Names)",
+        text="Model checking over 162 class configurations (HasTraits/HasStrictTraits/HasPrivateTraits x three wildcard "
+             "prefixes declared in base or subclass x explicit Int/ReadOnly/Constant/Event traits) x 12 names (zero/one/"
+             "several prefix matches, leading underscores, dunder, exact) x all get/set/del/add_trait/remove_trait "
+             "histories to depth 2/3, each replayed on real classes; random longer histories over 18 names.",
+        note="Trusted: TLC; fresh classes per history (class-level caching across instances is C10's subject); policies "
+             "limited to Int, Str, Any, ReadOnly, Constant, Event, Disallow, Python, getter-only Property.",
+        design="4/C13"),
     "C15": dict(
         technique=TLA + "TLC computes the complete bounded language of the documented grammar with parse trees and "
                   "denotations (ObserveDSL.tla) and checks its well-formedness laws; every member is compiled by the real "
